@@ -1378,8 +1378,11 @@ func (c *c13) partSliceSet() {
 	rc := c.rc
 	rc.Part = "slice-set"
 	repls := []*c13repl{c13listRepl(0), c13listRepl(1), c13listRepl(2), c13listRepl(3)}
-	for n := 0; n <= c.maxLen(); n++ {
-		s := c13mk("list", n)
+	for n := 0; n <= 2*(c.maxLen()+1)-1; n++ {
+		s := c13mk("list", n%(c.maxLen()+1))
+		if n > c.maxLen() {
+			s = c13mk("listcap", n%(c.maxLen()+1))
+		}
 		for _, cc := range c.ix {
 			if rc.Expired() || rc.Done() {
 				return
